@@ -3,7 +3,7 @@
 # usage: build.sh [shim]   -> prints nothing on success; exit 2 on build failure
 set -u
 export GOFLAGS=-mod=mod GOPROXY=off GOTOOLCHAIN=local TZ=UTC CGO_ENABLED=1
-V=/verif
+V=$(cd "$(dirname "${BASH_SOURCE[0]}")" && pwd)
 B=$V/.build
 mkdir -p $B/bin $B/overlay $B/overlay-shim
 cd $V/mc || exit 2
